@@ -16,6 +16,7 @@ package main
 //                   starting function, and the starting function assigns that same variable again
 //                   afterwards (a later branch or iteration) with no synchronisation in between: the
 //                   goroutine sees whichever value is there when it gets to run.
+//   STATE/non-blocking-send  a value is sent in a select that has a default branch.
 //   STATE/format    text taken from the arguments is used as the FORMAT of a fmt call.
 //   STATE/pool      memory of an object taken from a sync.Pool is still referenced by the function's
 //                   result although the object is handed back to the pool.
@@ -447,6 +448,19 @@ func stateRules(c *Ctx) {
 			ft := tb.T(as[pos])
 			if leaves, _ := argLeaves(ft); len(leaves) > 0 {
 				c.bad("STATE", "format:"+short1, i.Pos(), fmt.Sprintf("%s builds the format string of %s from %s: a '%%' in that text is read as a formatting verb, so the text comes out garbled and the operands shift", short1, calleeName(ci), strings.Join(pretty(g, leaves), ", ")))
+			}
+		})
+		// ---- a send that gives up when the receiver is not ready
+		eachInstr(g, func(i ssa.Instruction) {
+			sel, ok := i.(*ssa.Select)
+			if !ok || sel.Blocking {
+				return
+			}
+			for _, stt := range sel.States {
+				if stt.Dir == types.SendOnly {
+					c.bad("STATE", "non-blocking-send:"+short1, sel.Pos(), fmt.Sprintf("%s sends on a channel inside a select with a default branch: when the receiver is not ready at that instant (a full buffer, a consumer busy with the other channel) the value is dropped without a trace, so what is delivered depends on timing", short1))
+					return
+				}
 			}
 		})
 		// ---- pool
